@@ -10,6 +10,7 @@ package scramblesuit
 //@   requires dhHsInv(hs) && privOK(hs.keypair)
 //@   modifies hs.serverPublicKey, hs.serverMark, hs.mac.*
 //@   assert_at bytes.Index#1 [C15:mark_search_window] offset(arg0) == offset(resp) + 192 && len(arg0) == min(len(resp), 1516) - 192 && base(arg0) == base(resp)
+//@   ensures [C10:not_found_yet_means_short] err == errMarkNotFoundYet ==> len(resp) < 1532
 //@   ensures [C15:state_inv] dhHsInv(hs)
 //@   ensures [C15:consumed_le_received] err == nil ==> 224 <= n && n <= len(resp) && n <= 1532
 //@   ensures [C15:seed_len] err == nil ==> len(seed) == 32
@@ -74,11 +75,11 @@ package scramblesuit
 // The client handshake itself never touches the deadline: the caller arms it before and disarms it after.
 //@ func (*ssConn).clientHandshake(conn, kB, sessionKey) (err)
 //@   serves C15 C10
-//@   requires conn != nil && conn.Conn != nil && whole(conn) && conn.ticketStore != nil && conn.ticketStore.store != nil && conn.receiveBuffer != nil && whole(conn.receiveBuffer) && kB != nil && privOK(sessionKey)
+//@   requires conn != nil && conn.Conn != nil && whole(conn) && conn.ticketStore != nil && conn.ticketStore.store != nil && conn.receiveBuffer != nil && whole(conn.receiveBuffer) && len(conn.receiveBuffer.content) == 0 && kB != nil && privOK(sessionKey)
 //@   requires !typeis(conn.Conn, "*scramblesuit.ssConn")
 //@   modifies conn.txCrypto, conn.rxCrypto, conn.receiveBuffer.*, conn.Conn.wr, conn.Conn.nwrites, conn.Conn.rd, conn.Conn.nreads, blocked, now, conn.ticketStore.store.*, file(conn.ticketStore.filePath), fexists(conn.ticketStore.filePath), crashed
 //@   loop 1 invariant dhHsInv(hs) && privOK(hs.keypair) && hs != nil && fresh(hs) && fresh(hs.mac)
-//@   loop 1 invariant [C10:handshake_rx_bound] len(conn.receiveBuffer.content) <= 1547
+//@   loop 1 invariant [C10:handshake_rx_bound] len(conn.receiveBuffer.content) <= 1531
 //@   ensures [C10:deadline_owned_by_the_caller] conn.Conn.deadline == old(conn.Conn.deadline) && conn.Conn.rdeadline == old(conn.Conn.rdeadline)
 //@   ensures [C10:handshake_rx_bound] len(conn.receiveBuffer.content) <= 3079
 
